@@ -63,6 +63,10 @@ class ErrorRender:
 		if not os.path.exists(filepath):
 			return []
 
+		# 位置情報を持たないノード(空のエントリーなど)は引用元が存在しない
+		if node.source_map['begin'][0] < 1 or node.source_map['begin'][1] < 1:
+			return []
+
 		# XXX Larkのソースマップは+1されているため-1
 		source_map = (
 			node.source_map['begin'][0] - 1,
